@@ -13,7 +13,7 @@
 use std::fs::OpenOptions;
 use std::io::ErrorKind;
 #[cfg(unix)]
-use std::os::unix::fs::PermissionsExt;
+use std::os::unix::fs::{DirBuilderExt, OpenOptionsExt, PermissionsExt};
 use std::path::Path;
 
 use crate::error::Error;
@@ -49,8 +49,14 @@ where
 {
     let path = path.as_ref();
 
-    // Create the directory (and parents if needed)
-    std::fs::create_dir_all(path)?;
+    // Create the directory (and parents if needed). On Unix every directory this creates is
+    // born with mode 0700 (less whatever the umask removes): neither the directory nor the
+    // parents created on the way are open to others, not even until the chmod below.
+    let mut builder = std::fs::DirBuilder::new();
+    builder.recursive(true);
+    #[cfg(unix)]
+    builder.mode(0o700);
+    builder.create(path)?;
     #[cfg(feature = "verif-hooks")]
     crate::verif::tick(crate::verif::Point::Open("precreate:directory_created"));
 
@@ -139,7 +145,13 @@ where
 
     // Atomically create the file only if it doesn't exist.
     // This uses O_CREAT | O_EXCL on Unix, which is atomic.
-    match OpenOptions::new().write(true).create_new(true).open(path) {
+    // On Unix the file is born with mode 0600 (less whatever the umask removes), so that it is
+    // never open to others, not even until the chmod below.
+    let mut options = OpenOptions::new();
+    options.write(true).create_new(true);
+    #[cfg(unix)]
+    options.mode(0o600);
+    match options.open(path) {
         Ok(_file) => {
             #[cfg(feature = "verif-hooks")]
             crate::verif::tick(crate::verif::Point::Open("precreate:file_created"));
